@@ -39,6 +39,7 @@ J_Skills == Judge("Skills", Skills(R))
 J_LimitDistance == Judge("LimitDistance", LimitDistance(R))
 J_LimitDuration == Judge("LimitDuration", LimitDuration(R))
 J_LimitTourSize == Judge("LimitTourSize", LimitTourSize(R))
+J_RechargeDistance == Judge("RechargeDistance", RechargeDistance(R))
 J_Groups == Judge("Groups", Groups(R))
 J_Compat == Judge("Compat", Compat(R))
 J_OrderHard == Judge("OrderHard", OrderHard(R))
